@@ -1,0 +1,130 @@
+//go:build verif
+
+// Contracts for package messagequeue (properties C15, C16, C25). Comment-only: read by /verif/bin/gsv,
+// never compiled into the package.
+
+package messagequeue
+
+//@ -- ghost history of the reservation made for this peer's queued response data
+//@ ghost relBytes int                  -- bytes handed back to the allocator so far (ReleaseBlockMemory)
+//@ ghost relCalls int
+//@ func Allocator.ReleaseBlockMemory
+//@   assumed
+//@   modifies nothing
+//@   ghost relBytes := old(relBytes) + amount
+//@   ghost relCalls := old(relCalls) + 1
+
+//@ pred blk(b *Builder) := b.Builder.blkSize
+//@ pred buildersOK(mq *MessageQueue) := mq.allocator != nil && mq.eventPublisher != nil && errEmptyMessage != nil
+//@    && (forall i int :: 0 <= i && i < len(mq.builders) ==> mq.builders[i] != nil && mq.builders[i].Builder != nil && isalloc(mq.builders[i]) && isalloc(mq.builders[i].Builder))
+//@    && (forall i int, j int :: 0 <= i && i < j && j < len(mq.builders) ==> mq.builders[i] != mq.builders[j] && mq.builders[i].Builder != mq.builders[j].Builder)
+
+//@ func Builder.ScrubResponses
+//@   requires b.Builder != nil
+//@   safety off
+//@   modifies b.responseStreams[*], b.subscribers[*], b.blockData[*], b.Builder.blkSize, b.Builder.outgoingBlocks,
+//@            b.Builder.completedResponses[*], b.Builder.extensions[*], b.Builder.outgoingResponses[*], alloc
+//@   ensures b.Builder.blkSize <= old(b.Builder.blkSize) && result == old(b.Builder.blkSize) - b.Builder.blkSize
+
+//@ -- C15: what scrubbing frees is the sum over ALL builders of what each of them gave up
+//@ func MessageQueue.scrubResponses
+//@   requires buildersOK(mq)
+//@   modifies mq.builders, Builder.responseStreams, Builder.subscribers, Builder.blockData, alloc,
+//@            allmaps("map[graphsync.RequestID]io.Closer"), allmaps("map[graphsync.RequestID]notifications.Subscriber"), allmaps("map[graphsync.RequestID][]graphsync.BlockData"),
+//@            gsmsg.Builder.blkSize, gsmsg.Builder.outgoingBlocks, allmaps("map[graphsync.RequestID]graphsync.ResponseStatusCode"),
+//@            allmaps("map[graphsync.RequestID][]graphsync.ExtensionData"), allmaps("map[graphsync.RequestID][]gsmsg.GraphSyncLinkMetadatum")
+//@   ensures result == SeqSum2(old(mq.builders), old(len(mq.builders)), Builder.Builder, old(gsmsg.Builder.blkSize))
+//@                    - SeqSum2(old(mq.builders), old(len(mq.builders)), Builder.Builder, gsmsg.Builder.blkSize)
+//@   loop 1 invariant 0 <= totalFreed
+//@   loop 1 invariant totalFreed == SeqSum2(old(mq.builders), idx1, Builder.Builder, old(gsmsg.Builder.blkSize))
+//@                                  - SeqSum2(old(mq.builders), idx1, Builder.Builder, gsmsg.Builder.blkSize)
+//@   loop 1 invariant forall i int :: idx1 <= i && i < old(len(mq.builders)) ==> old(mq.builders)[i].Builder.blkSize == old(old(mq.builders)[i].Builder.blkSize)
+//@   loop 1 invariant mq.builders == old(mq.builders) && Builder.Builder == old(Builder.Builder)
+//@   use seqsum2_step(old(mq.builders), idx1, Builder.Builder, old(gsmsg.Builder.blkSize))
+//@   use seqsum2_step(old(mq.builders), idx1, Builder.Builder, gsmsg.Builder.blkSize)
+
+//@ pred queued(mq *MessageQueue) := SeqSum2(mq.builders, len(mq.builders), Builder.Builder, gsmsg.Builder.blkSize)
+
+//@ -- C15: scrubbed data is handed back to the allocator, exactly the bytes that left the pending builders
+//@ func MessageQueue.scrubResponseStreams
+//@   lenient
+//@   requires buildersOK(mq)
+//@   modifies mq.builders, Builder.responseStreams, Builder.subscribers, Builder.blockData, alloc, relBytes, relCalls,
+//@            allmaps("map[graphsync.RequestID]io.Closer"), allmaps("map[graphsync.RequestID]notifications.Subscriber"), allmaps("map[graphsync.RequestID][]graphsync.BlockData"),
+//@            gsmsg.Builder.blkSize, gsmsg.Builder.outgoingBlocks, allmaps("map[graphsync.RequestID]graphsync.ResponseStatusCode"),
+//@            allmaps("map[graphsync.RequestID][]graphsync.ExtensionData"), allmaps("map[graphsync.RequestID][]gsmsg.GraphSyncLinkMetadatum")
+//@   ensures relBytes - old(relBytes) == SeqSum2(old(mq.builders), old(len(mq.builders)), Builder.Builder, old(gsmsg.Builder.blkSize))
+//@                                        - SeqSum2(old(mq.builders), old(len(mq.builders)), Builder.Builder, gsmsg.Builder.blkSize)
+
+//@ -- C15: a sent message gives back exactly the bytes it carried, once
+//@ func MessageQueue.publishSent
+//@   lenient
+//@   requires mq.allocator != nil && mq.eventPublisher != nil
+//@   modifies relBytes, relCalls, alloc
+//@   ensures relBytes == old(relBytes) + metadata.msgSize && relCalls == old(relCalls) + 1
+
+//@ -- C15: a failed message gives back exactly the bytes it carried plus what its failure scrubbed from the queue
+//@ func MessageQueue.publishError
+//@   lenient
+//@   requires buildersOK(mq)
+//@   modifies mq.builders, Builder.responseStreams, Builder.subscribers, Builder.blockData, alloc, relBytes, relCalls,
+//@            allmaps("map[graphsync.RequestID]io.Closer"), allmaps("map[graphsync.RequestID]notifications.Subscriber"), allmaps("map[graphsync.RequestID][]graphsync.BlockData"),
+//@            gsmsg.Builder.blkSize, gsmsg.Builder.outgoingBlocks, allmaps("map[graphsync.RequestID]graphsync.ResponseStatusCode"),
+//@            allmaps("map[graphsync.RequestID][]graphsync.ExtensionData"), allmaps("map[graphsync.RequestID][]gsmsg.GraphSyncLinkMetadatum")
+//@   ensures relBytes - old(relBytes) == metadata.msgSize
+//@                + SeqSum2(old(mq.builders), old(len(mq.builders)), Builder.Builder, old(gsmsg.Builder.blkSize))
+//@                - SeqSum2(old(mq.builders), old(len(mq.builders)), Builder.Builder, gsmsg.Builder.blkSize)
+
+//@ -- C15: the size recorded for an outgoing message is the block bytes of its builder
+//@ func Builder.build
+//@   lenient
+//@   safety off
+//@   requires b.Builder != nil
+//@   modifies alloc
+//@   ensures result2 == nil ==> result1.msgSize == b.Builder.blkSize && result1.topic == b.topic && result1.responseStreams == b.responseStreams
+
+//@ -- C15/C17: messages leave in the order they were queued; what leaves takes its bytes with it
+//@ func MessageQueue.extractOutgoingMessage
+//@   lenient
+//@   requires buildersOK(mq)
+//@   modifies mq.builders, alloc
+//@   ensures len(old(mq.builders)) == 0 ==> result2 != nil && mq.builders == old(mq.builders)
+//@   ensures len(old(mq.builders)) > 0 ==> mq.builders == old(mq.builders[1:])
+//@   ensures result2 == nil ==> len(old(mq.builders)) > 0 && result1.msgSize == old(mq.builders[0].Builder.blkSize) && result1.topic == old(mq.builders[0].topic)
+
+//@ -- C15: the callback contract of AllocateAndBuildMessage(size, fn): fn raises the block bytes of the builder it is
+//@ -- given by exactly the `size` that was reserved for it (responseassembler's callback is verified against this)
+//@ func MessageQueue.buildMessage$buildMessageFn
+//@   assumed
+//@   params builder
+//@   modifies builder.Builder.blkSize, alloc
+//@   ensures builder.Builder.blkSize == old(builder.Builder.blkSize) + size
+
+//@ func NewBuilder
+//@   lenient
+//@   modifies alloc
+//@   ensures result != nil && fresh(result) && result.Builder != nil && fresh(result.Builder) && result.Builder.blkSize == 0 && result.topic == topic
+//@ func shouldBeginNewResponse
+//@   lenient
+//@   safety off
+//@   modifies nothing
+//@   ensures len(builders) == 0 ==> result
+
+//@ -- C15/C17: data is added to the LAST builder only (a new one is appended when needed), raising it by exactly size
+//@ func MessageQueue.buildMessage
+//@   lenient
+//@   requires buildersOK(mq) && buildMessageFn != nil
+//@   modifies mq.builders, mq.nextBuilderTopic, gsmsg.Builder.blkSize, alloc
+//@   ensures len(mq.builders) > 0 && (mq.builders == old(mq.builders) || (len(mq.builders) == len(old(mq.builders)) + 1 && fresh(mq.builders[len(mq.builders) - 1])))
+//@   ensures forall i int :: 0 <= i && i < len(old(mq.builders)) ==> mq.builders[i] == old(mq.builders)[i]
+//@   ensures let last := mq.builders[len(mq.builders) - 1] ::
+//@           last.Builder.blkSize == ite(fresh(last), 0, old(last.Builder.blkSize)) + size
+//@   ensures forall i int :: 0 <= i && i < len(mq.builders) - 1 ==> mq.builders[i].Builder.blkSize == old(mq.builders[i].Builder.blkSize)
+
+//@ -- C15/C25: memory is reserved (and the caller may have to wait for this peer's allowance) only for size > 0,
+//@ -- for exactly `size` bytes of this queue's peer
+//@ func MessageQueue.AllocateAndBuildMessage
+//@   lenient
+//@   requires buildersOK(mq) && buildMessageFn != nil
+//@   modifies mq.builders, mq.nextBuilderTopic, gsmsg.Builder.blkSize, alloc
+//@   callsite Allocator.AllocateBlockMemory: assert size > 0 && $amount == size && $p == mq.p
